@@ -2,6 +2,7 @@
 //! extracted-model driver, the per-run report.
 pub mod urlrec;
 pub mod urlops;
+pub mod urlprops;
 use std::collections::{BTreeMap, HashSet};
 use std::io::{BufRead, BufReader, Write};
 use std::process::{Child, ChildStdin, ChildStdout, Command, Stdio};
